@@ -563,6 +563,56 @@ def _sort_job(chunk):
     return len(chunk), out
 
 
+def sort_cases(sc, n, k, timeout=1500):
+    """Spec -> code: every case of SortCases.tla (a sorted arrangement disturbed by up to k picks, one completion, weights 1 / 2) through the
+    real sort_trajstate."""
+    chk = sc.chk
+    cfg = os.path.join(sc.work, f"SortCases_{n}_{k}.cfg")
+    with open(cfg, "w") as fh:
+        fh.write(f"SPECIFICATION Spec\nCONSTANTS\n  N = {n}\n  K = {k}\nINVARIANT Sortable\nINVARIANT BusyValid\nCHECK_DEADLOCK FALSE\n")
+    dot = os.path.join(sc.work, f"sortcases_{n}_{k}.dot")
+    try:
+        res = tlc.run_tlc("SortCases", cfg, dump=dot, timeout=timeout, allow_violation=True)
+    except tlc.TLCError as exc:
+        chk.machinery(str(exc)[:1000])
+        return
+    chk.add_tlc(res, {"N": n, "K": k})
+    if not res["ok"]:
+        chk.machinery(f"TLC refuted {res['violated']} on SortCases.tla")
+        return
+    raw, _i, _e = tlc.read_dot(dot, parse=False)
+    os.remove(dot)
+    keys = set()
+    displaced = 0
+    for txt in raw.values():
+        if 'phase = "done"' not in txt:
+            continue
+        st = tlc.parse_state(txt)
+        rows = tuple(tuple(int(st["rows"][e][j]) for j in range(n)) for e in range(n))
+        lock = frozenset(int(x) for x in st["lock"])
+        keys.add((tuple(20 + e for e in range(n)), lock, rows))
+    for (_s, lock, rows) in keys:
+        if any(rows[e][e] == 0 and e not in lock for e in range(1, n)):
+            displaced += 1
+    if not keys or not displaced:
+        chk.machinery(f"SortCases.tla N={n} K={k}: {len(keys)} cases, {displaced} with a displaced idle path - nothing to sort")
+        return
+    _SORT["n"] = n
+    keys = sorted(keys, key=lambda kk: (sorted(kk[1]), kk[2]))
+    results = common.pmap(_sort_job, common.chunks(keys, 64))
+    total = 0
+    for n_done, fails in results:
+        total += n_done
+        for sig, msg, case in fails:
+            chk.violation(sig + ";weighted", msg, {"property": sc.pid, "binding": "B", "spec": "SortCases", "constants": {"N": n, "K": k}, "presort": case,
+                                                   "clause": sig, "kind": "sort-state"})
+    chk.evaluated(total)
+    chk.traces(total)
+    for kk in keys:
+        chk.nontrivial(("sortcase", str(kk)))
+    print(f"  SortCases N={n} K={k}: {res['distinct']} model states, {total} cases through the real sort_trajstate ({displaced} with a displaced idle path)", flush=True)
+
+
 def binding_selftest(sc):
     """Demonstrate that the trace specification is bound to what it is given: a recorded execution that TLC accepts is corrupted in
     one field at a time (a busy mark, a path number, a stream, a credited fraction, a whole event dropped as if a recorder were
@@ -679,6 +729,12 @@ def sort_states(sc, name, consts, timeout=1500):
         rows = tuple(tuple((rows_v[e][j] if isinstance(rows_v[e], dict) else rows_v[e][j]) for j in range(n)) for e in range(n)) \
             if isinstance(rows_v, dict) else tuple(tuple(r[j] if isinstance(r, dict) else r[j] for j in range(n)) for r in rows_v)
         keys.add((slot, frozenset(v["lock"]), rows))
+    # the re-sorting depends on the support of the weights only (Arrangements in Infretis.tla): every pre-sort state is also run
+    # with its non-zero weights replaced by wire-fencing-like magnitudes (heavier entries not necessarily first)
+    for (slot, lock, rows) in list(keys):
+        for salt in (1, 2):
+            rows2 = tuple(tuple((1 + (7 * e + 3 * j + salt * (slot[e] + 2 * j)) % 4) if x else 0 for j, x in enumerate(r)) for e, r in enumerate(rows))
+            keys.add((slot, lock, rows2))
     _SORT["n"] = full["N"]
     keys = sorted(keys, key=lambda k: (k[0], sorted(k[1]), k[2]))
     results = common.pmap(_sort_job, common.chunks(keys, 48))
